@@ -1,11 +1,28 @@
-import Lean.Data.Json
-import FlowCalModel
-open Lean
+import FlowCalDriver
+open Lean FlowCal.Driver
+
+def dispatch (j : Json) : R Json := do
+  let op ← strF j "op"
+  match op with
+  | "text" => handleText j
+  | "text_encode" => handleTextEncode j
+  | "text_dict" => handleTextDict j
+  | "dict_update" => handleDictUpdate j
+  | "ping" => pure (Json.mkObj [("pong", Json.bool true)])
+  | _ => throw s!"unknown op {op}"
+
 partial def loop (h : IO.FS.Stream) (out : IO.FS.Stream) : IO Unit := do
   let line ← h.getLine
   if line.isEmpty then return ()
-  match Json.parse line with
-  | .ok j => out.putStrLn (j.compress)
-  | .error e => out.putStrLn s!"err {e}"
+  let res := match Json.parse line with
+    | .ok j => (match dispatch j with
+        | .ok r => r
+        | .error e => Json.mkObj [("driver_error", Json.str e)])
+    | .error e => Json.mkObj [("driver_error", Json.str s!"json: {e}")]
+  out.putStrLn res.compress
   loop h out
-def main : IO Unit := do loop (← IO.getStdin) (← IO.getStdout)
+
+def main : IO Unit := do
+  let out ← IO.getStdout
+  loop (← IO.getStdin) out
+  out.flush
